@@ -496,3 +496,50 @@ T("C09", "twin-key-cache-validity-flag", F, "", "",
          (F, RN_HEAD, "        if self._key_valid:\n            return self._key\n" + RN_HEAD),
          (F, SEEK_HEAD, "    def seek(self, offset, whence=io.SEEK_SET):\n        self._key_valid = False\n        if whence == io.SEEK_SET:\n"),
          (F, READ_TAIL, "        self._key = nonce\n        self._key_valid = not (n > 0 and len(data) > n)\n" + READ_TAIL)])
+
+# ------------------------------------------------------------------------------------------------ position-preserving helpers (R7)
+# read_nonce() looks behind the position for the key word and must leave the cursor where it was whatever the read returns
+# (at / beyond the end of the data the read comes up short).  These entries are written against the repaired text: after the
+# try/except read_nonce() restores the position absolutely with `self.fh.seek(pos)`.
+RESTORE = "        # the read comes up short at or beyond the end of the file: never leave the position changed\n        self.fh.seek(pos)\n"
+LOOK = ("        try:\n            self.fh.seek(-4, io.SEEK_CUR)\n            nonce = self.fh.read(4)\n        except OSError:\n            nonce = b\"\\x00\\x00\\x00\\x00\"\n")
+# the exact reversal of the repair: the backward seek is compensated by the read alone
+M("C09", "read-nonce-position-not-restored", F, RESTORE, "", "C09.R7")
+# restored on the exception path only
+M("C09", "read-nonce-restored-in-handler-only", F, LOOK + RESTORE, LOOK + "            self.fh.seek(pos)\n", "C09.R7")
+# "restored" to wherever the cursor is by then
+M("C09", "read-nonce-restored-to-current-position", F, RESTORE, "        self.fh.seek(self.fh.tell())\n", "C09.R7")
+# the remembered position used as a relative offset
+M("C09", "read-nonce-restore-relative-by-position", F, RESTORE, "        self.fh.seek(pos, io.SEEK_CUR)\n", "C09.R7")
+# relative compensation by the nominal size / with the wrong sign
+M("C09", "read-nonce-compensated-by-nominal-size", F, RESTORE, "        self.fh.seek(4 - 4, io.SEEK_CUR)\n", "C09.R7")
+M("C09", "read-nonce-compensation-wrong-sign", F, RESTORE, "        self.fh.seek(len(nonce) - 4, io.SEEK_CUR)\n", "C09.R7")
+# restored only when that is not needed / only for an empty read / for all but one short length
+M("C09", "read-nonce-restored-only-after-complete-read", F, RESTORE, "        if len(nonce) == 4:\n            self.fh.seek(pos)\n", "C09.R7")
+M("C09", "read-nonce-restored-only-after-empty-read", F, RESTORE, "        if not nonce:\n            self.fh.seek(pos)\n", "C09.R7")
+M("C09", "read-nonce-conditional-restore-off-by-one", F, RESTORE, "        if len(nonce) < 3:\n            self.fh.seek(pos)\n", "C09.R7")
+# restored through the view's own seek() without translating the raw position into a logical one
+M("C09", "read-nonce-restored-through-own-seek-untranslated", F, RESTORE, "        self.seek(pos)\n", "C09.R7")
+# the position is remembered after the look-behind has already moved the cursor
+M("C09", "read-nonce-remembers-position-too-late", F, LOOK + RESTORE,
+  LOOK.replace("            nonce = self.fh.read(4)\n", "            nonce = self.fh.read(4)\n            back = self.fh.tell()\n").replace("        try:\n", "        back = pos\n        try:\n")
+  + "        self.fh.seek(back)\n", "C09.R7")
+# other correct spellings of the repair
+T("C09", "twin-read-nonce-relative-compensation-by-actual-length", F, RESTORE, "        self.fh.seek(4 - len(nonce), io.SEEK_CUR)\n")
+T("C09", "twin-read-nonce-restored-inside-try", F, LOOK + RESTORE, LOOK.replace("            nonce = self.fh.read(4)\n", "            nonce = self.fh.read(4)\n            self.fh.seek(pos)\n"))
+T("C09", "twin-read-nonce-restored-in-finally", F, LOOK + RESTORE, LOOK + "        finally:\n            self.fh.seek(pos)\n")
+T("C09", "twin-read-nonce-restored-in-else", F, LOOK + RESTORE, LOOK + "        else:\n            self.fh.seek(pos)\n")
+T("C09", "twin-read-nonce-restored-when-short", F, RESTORE, "        if len(nonce) < 4:\n            self.fh.seek(pos)\n")
+T("C09", "twin-read-nonce-restored-unless-complete", F, RESTORE, "        if len(nonce) != 4:\n            self.fh.seek(pos, io.SEEK_SET)\n")
+T("C09", "twin-read-nonce-absolute-look-behind", F, "            self.fh.seek(-4, io.SEEK_CUR)\n            nonce = self.fh.read(4)", "            self.fh.seek(pos - 4)\n            nonce = self.fh.read(4)")
+T("C09", "twin-read-nonce-restored-through-own-seek", F, RESTORE, "        self.seek(pos - (self.nonce_offset + 8))\n")
+T("C09", "twin-read-nonce-restored-by-named-position", F, RESTORE, "        here = pos\n        self.fh.seek(here, io.SEEK_SET)\n")
+# the look-behind in a method of its own that restores the position itself
+T("C09", "twin-read-nonce-look-behind-method", F, "", "",
+  edits=[(F, LOOK + RESTORE, "        nonce = self._word_before(pos)\n"),
+         (F, "    def tell(self):\n", "    def _word_before(self, pos):\n        try:\n            self.fh.seek(-4, io.SEEK_CUR)\n            word = self.fh.read(4)\n        except OSError:\n"
+                                      "            word = b\"\\x00\\x00\\x00\\x00\"\n        self.fh.seek(pos)\n        return word\n\n    def tell(self):\n")])
+M("C09", "look-behind-method-does-not-restore", F, "", "", "C09.R7",
+  edits=[(F, LOOK + RESTORE, "        nonce = self._word_before(pos)\n"),
+         (F, "    def tell(self):\n", "    def _word_before(self, pos):\n        try:\n            self.fh.seek(-4, io.SEEK_CUR)\n            word = self.fh.read(4)\n        except OSError:\n"
+                                      "            word = b\"\\x00\\x00\\x00\\x00\"\n        return word\n\n    def tell(self):\n")])
